@@ -17,8 +17,9 @@
  * along with this program.  If not, see <https://www.gnu.org/licenses/>.
  */
 
-use rkyv::de::deserializers::SharedDeserializeMap;
 use rkyv::de::deserializers::SharedDeserializeMapError;
+use rkyv::de::SharedDeserializeRegistry;
+use rkyv::de::SharedPointer;
 use rkyv::ser::serializers::AlignedSerializer;
 use rkyv::ser::serializers::AllocScratch;
 use rkyv::ser::serializers::AllocScratchError;
@@ -35,6 +36,41 @@ use rkyv::AlignedVec;
 
 const DEFAULT_VALIDATION_CAPACITY: usize = 1024;
 const DEFAULT_DESERIALIZE_CAPACITY: usize = 1024;
+
+/// Deserializes every shared pointer into an allocation of its own.
+///
+/// rkyv's `SharedDeserializeMap` reuses the allocation made for the first shared pointer it meets at
+/// an archive address for every later pointer to that address, but builds the result with the later
+/// pointer's own metadata. Validation does not compare the metadata of pointers to one address, so
+/// crafted data with two `Rc<str>` at one address and different lengths yields a string that is
+/// longer than its allocation. Without reuse every value is built from validated archive bytes only.
+struct UnsharedDeserializer {
+    // the registry owns one reference to every value until the deserialization is over
+    shared_pointers: Vec<Box<dyn SharedPointer>>,
+}
+
+impl UnsharedDeserializer {
+    fn with_capacity(capacity: usize) -> Self {
+        Self {
+            shared_pointers: Vec::with_capacity(capacity),
+        }
+    }
+}
+
+impl rkyv::Fallible for UnsharedDeserializer {
+    type Error = SharedDeserializeMapError;
+}
+
+impl SharedDeserializeRegistry for UnsharedDeserializer {
+    fn get_shared_ptr(&mut self, _ptr: *const u8) -> Option<&dyn SharedPointer> {
+        None
+    }
+
+    fn add_shared_ptr(&mut self, _ptr: *const u8, shared: Box<dyn SharedPointer>) -> Result<(), Self::Error> {
+        self.shared_pointers.push(shared);
+        Ok(())
+    }
+}
 
 #[derive(Debug, thiserror::Error)]
 pub enum RkyvDeserializeError {
@@ -68,7 +104,7 @@ pub(crate) fn from_aligned_slice<'a, Value>(slice: &'a [u8]) -> Result<Value, Rk
 where
     Value: rkyv::Archive,
     <Value as rkyv::Archive>::Archived:
-        rkyv::CheckBytes<DefaultValidator<'a>> + rkyv::Deserialize<Value, SharedDeserializeMap>,
+        rkyv::CheckBytes<DefaultValidator<'a>> + rkyv::Deserialize<Value, UnsharedDeserializer>,
 {
     let mut validator = rkyv::validation::validators::DefaultValidator::with_capacity(
         slice,
@@ -77,7 +113,7 @@ where
     let archived_data = rkyv::check_archived_root_with_context::<Value, _>(slice, &mut validator)
         .map_err(|e| RkyvDeserializeError::Validation(Box::new(e)))?;
 
-    let mut shared = SharedDeserializeMap::with_capacity(DEFAULT_DESERIALIZE_CAPACITY);
+    let mut shared = UnsharedDeserializer::with_capacity(DEFAULT_DESERIALIZE_CAPACITY);
     rkyv::Deserialize::<Value, _>::deserialize(archived_data, &mut shared)
         .map_err(RkyvDeserializeError::Deserialize)
 }
